@@ -43,6 +43,10 @@ pub struct Cfg {
     pub bond_amts: Vec<u128>,
     pub unbond_amts: Vec<u128>,
     pub hmax: u64,
+    /// sub-second part (ns) of the block time at instantiation
+    pub start_ns: u64,
+    /// clock steps in nanoseconds offered as `AdvanceBy` (empty: one `Advance` of +1 block, +5 s)
+    pub advance_ns: Vec<u64>,
     /// offer the refused-by-design calls (wrong denom, foreign token, direct Receive, …)
     pub adversarial: bool,
 }
@@ -51,7 +55,13 @@ pub struct Cfg {
 #[derive(Clone, Copy, Debug, PartialEq, Eq, Hash, PartialOrd, Ord)]
 pub enum Rel {
     H(u64),
+    /// nanoseconds since the epoch (exact: unbond block time incl. its sub-second part + period)
     T(u64),
+}
+
+/// exact block time of a world in nanoseconds
+fn now_ns(w: &World) -> u64 {
+    w.time_s * 1_000_000_000 + w.time_ns
 }
 
 #[derive(Clone, Debug, PartialEq, Eq, Hash, Default)]
@@ -83,6 +93,8 @@ pub enum Act {
     /// the donor hands stake tokens to the contract without bonding
     Donate { amt: Amt },
     Advance,
+    /// next block, `ns` nanoseconds later (sub-second block times)
+    AdvanceBy { ns: u64 },
 }
 
 /// everything the oracles read, through queries and real balances
@@ -149,7 +161,7 @@ impl StakeModel {
     fn matured(&self, rel: &Rel, w: &World) -> bool {
         match rel {
             Rel::H(h) => w.height >= *h,
-            Rel::T(t) => w.time_s >= *t,
+            Rel::T(t) => now_ns(w) >= *t,
         }
     }
 
@@ -276,7 +288,7 @@ fn label(act: &Act) -> &'static str {
         Act::Unbond { .. } => "Unbond",
         Act::Claim { .. } => "Claim",
         Act::Donate { .. } => "Donate",
-        Act::Advance => "AdvanceBlock",
+        Act::Advance | Act::AdvanceBy { .. } => "AdvanceBlock",
     }
 }
 
@@ -293,6 +305,7 @@ impl Model for StakeModel {
         let mut w = World::new();
         w.height = H0;
         w.time_s = T0;
+        w.time_ns = cfg.start_ns;
         w.dispatch = true;
         let mut v = vec![];
         let creator = a("creator");
@@ -418,7 +431,12 @@ impl Model for StakeModel {
             out.push(Act::Donate { amt: Amt(1) });
         }
         if s.w.height < cfg.hmax {
-            out.push(Act::Advance);
+            if cfg.advance_ns.is_empty() {
+                out.push(Act::Advance);
+            }
+            for ns in &cfg.advance_ns {
+                out.push(Act::AdvanceBy { ns: *ns });
+            }
         }
         out
     }
@@ -431,8 +449,11 @@ impl Model for StakeModel {
         let pre = &*s.obs;
         let lbl = label(act).to_string();
         let st = a(STAKE);
-        if let Act::Advance = act {
-            w.advance(1, DT);
+        if let Act::Advance | Act::AdvanceBy { .. } = act {
+            match act {
+                Act::AdvanceBy { ns } => w.advance_nanos(1, *ns),
+                _ => w.advance(1, DT),
+            }
             let obs = self.observe(&w).unwrap_or_default();
             if obs != *pre {
                 v.push(Violation::new("C10.time_alone_changes_nothing", "balances or queries changed by a block advance alone".into()));
@@ -485,7 +506,7 @@ impl Model for StakeModel {
                     mc::TxOut { res: res.map(|_| None), top: None, dispatched: vec![] }
                 }
             }
-            Act::Advance => unreachable!(),
+            Act::Advance | Act::AdvanceBy { .. } => unreachable!(),
         };
         let ok = out.ok();
         if !ok {
@@ -551,7 +572,7 @@ impl Model for StakeModel {
                     r.stake[u] -= amt.0;
                     let rel = match cfg.period {
                         Period::Height(p) => Rel::H(s.w.height + p),
-                        Period::Time(p) => Rel::T(s.w.time_s + p),
+                        Period::Time(p) => Rel::T(now_ns(&s.w) + p * 1_000_000_000),
                     };
                     r.claims[u].push((amt.0, rel));
                 }
@@ -568,7 +589,7 @@ impl Model for StakeModel {
                 r.donated += amt.0;
                 pays_in = Some((DON, amt.0));
             }
-            Act::Advance => unreachable!(),
+            Act::Advance | Act::AdvanceBy { .. } => unreachable!(),
         }
         // ---- real token movement: exactly what the call is entitled to move
         if v.is_empty() {
@@ -588,8 +609,8 @@ impl Model for StakeModel {
                     v.push(Violation::new(
                         "C10.claim_pays_exactly_the_matured_claims",
                         format!(
-                            "Claim by {} at height {} time {}: claims before {:?}, matured amount {p}; wallets {:?} -> {:?}, contract {} -> {}",
-                            ACTORS[*u as usize], s.w.height, s.w.time_s, s.r.claims[*u as usize], pre.wallets, obs.wallets, pre.holdings, obs.holdings
+                            "Claim by {} at height {} time {} ns: claims before {:?}, matured amount {p}; wallets {:?} -> {:?}, contract {} -> {}",
+                            ACTORS[*u as usize], s.w.height, now_ns(&s.w), s.r.claims[*u as usize], pre.wallets, obs.wallets, pre.holdings, obs.holdings
                         ),
                     ));
                 }
